@@ -33,8 +33,8 @@ import (
 
 type opDef struct {
 	name string
-	recv string   // kind of the receiver slot
-	args []string // kinds of operand slots
+	recv string                                     // kind of the receiver slot
+	args []string                                   // kinds of operand slots
 	do   func(recv any, args []any, imm uint64) any // returns the object now living in the receiver slot (recv itself for in-place ops)
 }
 
@@ -449,7 +449,11 @@ func goldilocksFamily() *family {
 				k.FromBytes(core.NewPRNG(seed).Bytes(56))
 				return c.ScalarBaseMult(&k)
 			},
-			"scl": func(seed uint64) any { s := new(goldilocks.Scalar); s.FromBytes(core.NewPRNG(seed).Bytes(56)); return s },
+			"scl": func(seed uint64) any {
+				s := new(goldilocks.Scalar)
+				s.FromBytes(core.NewPRNG(seed).Bytes(56))
+				return s
+			},
 		},
 	}
 	P := func(x any) *goldilocks.Point { return x.(*goldilocks.Point) }
@@ -720,7 +724,7 @@ func main() {
 	core.Main(&core.Property{
 		ID:    "C11",
 		Level: "exploration",
-		Rule: "histories: per family (group P-256/P-384/P-521/ristretto255 elements and scalars, BLS12-381 G1/G2/scalars, Goldilocks points and scalars, FourQ points; scenario family: CSIDH keys, ML-KEM/Kyber keys decoded into used objects, polynomial / secret-sharing objects whose inputs and outputs are mutated, expander / hash-to-group tags with spare capacity) 4..40 operations over a pool of 2..5 long-lived slots with deliberate aliasing (receiver = operand, operand = operand), receiver reuse, decode-into-used-object and mutate-returned-constant operations; after every operation: receiver = prediction of the value model on freshly built objects, every other slot unchanged, Generator()/Identity()/Order()/Params() unchanged. non-trivial = at least one operation executed on aliased or reused objects; distinct = distinct abstract trace (op kinds, aliasing pattern)",
+		Rule:  "histories: per family (group P-256/P-384/P-521/ristretto255 elements and scalars, BLS12-381 G1/G2/scalars, Goldilocks points and scalars, FourQ points; scenario family: CSIDH keys, ML-KEM/Kyber keys decoded into used objects, polynomial / secret-sharing objects whose inputs and outputs are mutated, expander / hash-to-group tags with spare capacity) 4..40 operations over a pool of 2..5 long-lived slots with deliberate aliasing (receiver = operand, operand = operand), receiver reuse, decode-into-used-object and mutate-returned-constant operations; after every operation: receiver = prediction of the value model on freshly built objects, every other slot unchanged, Generator()/Identity()/Order()/Params() unchanged. non-trivial = at least one operation executed on aliased or reused objects; distinct = distinct abstract trace (op kinds, aliasing pattern)",
 		Assumptions: []string{
 			"an object is its canonical bytes (group membership and arithmetic are trusted: C12/C13 not claimed)",
 			"operations that panic on freshly built objects too (e.g. inverting zero) are skipped",
@@ -728,7 +732,7 @@ func main() {
 		Components: map[string]string{
 			"group, ecc/bls12381, ecc/goldilocks, ecc/fourq, dh/csidh, kem/mlkem, kem/kyber, math/polynomial, secretsharing, expander": "real",
 			"caller's object reuse and aliasing pattern": "stub: seeded history generator",
-			"expected values":                            "model: the same call replayed on fresh objects built from canonical bytes",
+			"expected values": "model: the same call replayed on fresh objects built from canonical bytes",
 		},
 		Gen:     gen,
 		Exec:    exec,
